@@ -891,13 +891,17 @@ class SymStr:
         lead byte is modelled faithfully enough for range tests (it is >= 0xC2),
         continuation bytes are reported as 0x80.
         """
+        if a or k:
+            raise Unsupported("SymStr.encode with arguments")
         e = engine()
         out = []
-        for c in self.ch:
+        for i, c in enumerate(self.ch):
             if isinstance(c, int):
-                out.extend(chr(c).encode("utf-8", "surrogatepass"))
+                out.extend(chr(c).encode())  # strict: a lone surrogate raises UnicodeEncodeError, as in CPython
             elif e.branch(c < 128):
                 out.append(SymInt(c))
+            elif e.branch(z3.And(c >= 0xD800, c <= 0xDFFF)):
+                raise UnicodeEncodeError("utf-8", "\ud800", i, i + 1, "surrogates not allowed")
             else:
                 out.extend([0xC2, 0x80])
         return out
